@@ -233,6 +233,23 @@ def gen_wellformed(runner, tier, seed):
         p = r.choice([p4, p6])
         fr.append(p.tcp(r.randrange(65536), r.randrange(65536), r.randrange(1 << 32), r.randrange(1 << 32), r.choice([F_SYN, F_FIN | F_ACK, F_SYN | F_PSH, F_SYN | F_ECE])))
     s.send(fr)
+    # ARP / neighbour discovery replies (solicited-node multicast and unicast destinations, options), all base requests
+    for cfg in (cfg_plain(), cfg_self()):
+        s = runner.session(cfg, "wf arp/nd/base self=%s" % bool(cfg.self_ips))
+        cm = mac(CMAC)
+        fr = []
+        for dm in (mac(SMAC), b"\xff" * 6, mcast_mac6(S6), bytes.fromhex("333300000001")):
+            fr += [f for _, f in base_requests(dm, C4, S4, C6, S6)]
+        for k in range(20 if tier == "quick" else 400):
+            tgt = S6 if cfg.self_ips else rand_ip6(r)
+            src = rand_ip6(r)
+            opts = b"".join(bytes([r.choice([1, 14, 5]), 1]) + rb(r, 6) for _ in range(r.randrange(0, 3)))
+            dst = r.choice([solicited_node(tgt), ip(tgt), ip("ff02::1")])
+            fr.append(eth(r.choice([mac(SMAC), mcast_mac6(tgt), bytes.fromhex("333300000001")]), cm, 0x86DD,
+                          ipv6(src, dst, 58, nd_ns(src, dst, tgt, opts), hlim=255)))
+            sha = rb(r, 6)
+            fr.append(eth(b"\xff" * 6, sha, 0x0806, arp(1, sha, rand_ip4(r), b"\0" * 6, S4 if cfg.self_ips else rand_ip4(r), trailer=rb(r, r.choice([0, 18])))))
+        s.send(fr)
     # adaptive zero-checksum search: the echoed id word enters the reply checksum linearly
     gen_zero_checksum(runner, tier, r)
 
@@ -664,8 +681,15 @@ def gen_flood(runner, tier, seed):
                                b"" if r.random() < 0.8 else b"syn-data"))
         elif x < 0.65:
             p = Peer(CMAC, SMAC, rand_ip4(r), S4) if r.random() < 0.5 else Peer(CMAC, SMAC, rand_ip6(r), S6)
-            batch.append(p.tcp(r.randrange(65536), r.randrange(65536), r.randrange(1 << 32), r.randrange(1 << 32), F_PSH | F_ACK | r.choice([0, F_FIN, F_URG]),
-                               r.choice([b"", b"GET / HTTP/1.1\r\n\r\n", b"\x80\0\0\x28"])))
+            badack = r.choice([0, 0, 1, 0xffffffff, 0x80000000, r.randrange(1 << 32), r.randrange(1 << 32)])
+            sp, dp, sq = r.randrange(65536), r.randrange(65536), r.randrange(1 << 32)
+            frame = p.tcp(sp, dp, sq, badack, F_PSH | F_ACK | r.choice([0, F_FIN, F_URG]),
+                          r.choice([b"", b"GET / HTTP/1.1\r\n\r\n", b"\x80\0\0\x28"]))
+            if r.random() < 0.8:
+                batch.append(p.tcp(sp, dp, (sq - 1) & 0xFFFFFFFF, 0, F_SYN))     # the SYN-ACK binds the flow's cookie in the model
+            batch.append(frame)
+            if r.random() < 0.3:
+                batch.append(frame)                 # retransmitted: still unvalidated
         elif x < 0.8:
             p = r.choice([p4, p6])
             batch.append(p.tcp(r.randrange(65536), r.randrange(65536), r.randrange(1 << 32), r.randrange(1 << 32), r.choice([F_FIN | F_ACK, F_RST, F_ACK, F_FIN, F_RST | F_ACK, 0, F_URG])))
